@@ -118,7 +118,12 @@ class SmtLibSolver(Solver): # TODO this class is defined twice in pysmt. Here an
 
     def _get_answer(self):
         """Reads a line from STDOUT pipe"""
-        res = self.solver_stdout.readline().strip()
+        res = self.solver_stdout.readline()
+        # Skip empty lines, e.g. the newline that terminates the
+        # s-expression read by a previous get-value
+        while res and not res.strip():
+            res = self.solver_stdout.readline()
+        res = res.strip()
         self._debug("Read: %s", res)
         return res
 
